@@ -19,8 +19,6 @@ code under test):
   * Noh2 / Noh2Cog: Euler equations (mass, momentum, energy) of noh2/__init__.py.
   * Riemann solvers, EHEP: planar conservation form of riemann/__init__.py.
 """
-import math
-
 import numpy as np
 
 from xpmc import hydro, lattice, oracle
@@ -69,6 +67,10 @@ NPTS = 12
 C_LIGHT = 2.997e10      # the constants the Coggeshall sources document
 A_RAD = 1.3720e+02
 LAZARUS = 0.750024322   # reduced oracle for the recorded Guderley time-unit finding (DESIGN.md 3.6)
+# Sedov tolerance bands (rho / rho_post-shock at the point >= bound, tolerance, label).  The solver documents that its standard
+# case loses accuracy at small radius; measured (thorough lattice): residual <= 3e-5 where rho/rho_2 >= 1e-2, growing to 4.5e-3
+# where 1e-3 <= rho/rho_2 < 1e-2, and the exactly linear interpolated core (rho/rho_2 < 1e-3, excluded) violates the equations by 0.56
+SEDOV_BANDS = [(1e-2, 1e-3, "rho/rho_shock>=1e-2"), (0.0, 1e-1, "rho/rho_shock<1e-2")]
 
 # tolerance classes (DESIGN.md 4.1).  eta = rounding-noise allowance of one returned value (relative);
 # rsteps/tsteps = step sizes relative to the local length / time scale; cells = minimum steps in internal cells (class C)
@@ -76,7 +78,7 @@ LAZARUS = 0.750024322   # reduced oracle for the recorded Guderley time-unit fin
 CLS = {
     "A": dict(eta=1e-14, tol1=1e-6, tol2=1e-5, rsteps=(4e-3, 1e-3, 2.5e-4), tsteps=(4e-3, 1e-3, 2.5e-4), cells=None),
     # B and C: steps in ratio 2 so that the three time stencils share their points (t +- k, 2k, 4k, 8k: 8 calls, not 12)
-    "B": dict(eta=1e-10, tol1=1e-3, tol2=1e-3, rsteps=(8e-3, 4e-3, 2e-3), tsteps=(8e-3, 4e-3, 2e-3), cells=None),
+    "B": dict(eta=1e-10, tol1=1e-5, tol2=1e-5, rsteps=(8e-3, 4e-3, 2e-3), tsteps=(8e-3, 4e-3, 2e-3), cells=None),
     "C": dict(eta=1e-8, tol1=3e-2, tol2=3e-2, rsteps=(1.6e-2, 8e-3, 4e-3), tsteps=(1.6e-2, 8e-3, 4e-3), cells=(32, 16, 8)),
 }
 
@@ -148,9 +150,14 @@ def spec(name):
 
 
 def families():
+    import os
     from xpmc import hydro_more  # noqa: F401
     _ = spec("Noh")
-    return [f for f in hydro.FAMILIES if f["name"] in _SPEC]
+    fams = [f for f in hydro.FAMILIES if f["name"] in _SPEC]
+    only = os.environ.get("XPMC_C01_FAMILIES")      # development aid (mutant runs); registered commands never set it
+    if only:
+        fams = [f for f in fams if f["name"] in only.split(",")]
+    return fams
 
 
 def fam_times(f, sp, cfg, tier):
@@ -341,7 +348,7 @@ def sedov_setup(pr, t_hi):
         M = pr.matrix(xs, t_hi)
         z = [q for q in fd.detect(xs, M, kinks=False) if q["kind"] == "jump"]
         if z:
-            sh = max(z, key=lambda q: q["jump"])
+            sh = max(z, key=lambda q: q["hi"])          # the shock is the outermost discontinuity
             if sh["hi"] < 0.3 * rmax:        # shock resolved by too few internal cells of this trial grid: zoom in
                 rmax = 2.0 * sh["hi"]
                 continue
@@ -416,14 +423,19 @@ def level(f, sp, cfg, pr, t, tier, res, tkey):
     cnt("loci_excluded", len(hulls))
     segs = fd.segments(a, b, hulls, pad, edge=6.0 * pad)
     # Sedov: documented untrusted small-radius region
+    rho_sh = None
     if sp.get("sedov") and scan0 is not None and segs:
         xs, M = scan0
         m = linear_core(xs, M[:3])
+        jz = [q for q in zones3[1] if q["kind"] == "jump"]
+        sh = max(jz, key=lambda q: q["hi"]) if jz else None      # the shock is the outermost discontinuity
+        i_sh = int(np.searchsorted(xs, sh["lo"])) - 3 if sh else len(xs) - 1
+        rho_sh = abs(M[0, max(i_sh, 0)])
+        if not (rho_sh > 0 and np.isfinite(rho_sh)):      # no shock zone at this time: largest density of the profile (r > 0)
+            fin_ = np.abs(M[0, 1:][np.isfinite(M[0, 1:])])
+            rho_sh = float(fin_.max()) if fin_.size else None
         if m >= 8:
             edge = xs[m]
-            sh = max(zones3[1], key=lambda q: q["jump"]) if zones3[1] else None
-            i_sh = int(np.searchsorted(xs, sh["lo"])) - 3 if sh else len(xs) - 1
-            rho_sh = abs(M[0, max(i_sh, 0)])
             ratio = abs(M[0, m]) / rho_sh if rho_sh > 0 else 0.0
             res["extent"].append({"t": t, "linear_core_over_shock_radius": float(edge / sh["lo"]) if sh else None, "rho_ratio_at_edge": float(ratio)})
             if ratio < 1e-3:
@@ -431,7 +443,6 @@ def level(f, sp, cfg, pr, t, tier, res, tkey):
                 segs = [(max(A, edge + 4 * cell), B) for A, B in segs if B > edge + 4 * cell]
             else:
                 cnt("sedov_linear_core_not_excludable")
-    steps = []
     X, H, REG = [], [], []
     for si, (A, B) in enumerate(segs):
         W = B - A
@@ -500,6 +511,15 @@ def level(f, sp, cfg, pr, t, tier, res, tkey):
         pside = np.where(xi < fc["u"], c_["pl"], c_["pr"])
         gate = fc["p"] >= 33.0 * pside / (pr.s.num_int_pts + 1.0)
         cnt("points_under_resolved_by_the_p_table", int((~gate).sum()))
+    # tolerance bands: one band with the class tolerance, except Sedov (see SEDOV_BANDS)
+    band = np.zeros(n, int)
+    band_labels = [""]
+    band_scale = np.ones(n)
+    if sp.get("sedov") and rho_sh:
+        ratio_ = np.abs(fc["rho"]) / rho_sh
+        band = np.where(ratio_ >= SEDOV_BANDS[0][0], 0, 1)
+        band_labels = [b_[2] for b_ in SEDOV_BANDS]
+        band_scale = np.where(band == 0, SEDOV_BANDS[0][1], SEDOV_BANDS[1][1]) / cls["tol1"]
     variants = [("", 1.0)]
     if sp.get("reduced"):
         variants.append((":lazarus-time-units", sp["reduced"]))
@@ -514,6 +534,7 @@ def level(f, sp, cfg, pr, t, tier, res, tkey):
                 eqs = equations(f, sp, cfg, S, X, cls)
             for eq in eqs:
                 clause, terms, tol = eq[:3]
+                tol = tol * band_scale
                 r_, nt_ = fd.balance(terms, tol, eq[3] if len(eq) > 3 else None)
                 per[(vtag, clause, i)] = (r_, nt_, valid & okf & gate, np.array([t_[0] for t_ in terms]),
                                           np.array([t_[1] for t_ in terms]).sum(axis=0), tol)
@@ -560,10 +581,11 @@ def level(f, sp, cfg, pr, t, tier, res, tkey):
         judged = np.isfinite(r0)
         nontriv |= nt0 & judged
         bad = judged & (r0 > tol)
-        fin = np.where(judged, r0, 0.0)
-        wk = "%s|%s" % (f["name"], clause)
-        if fin.size and fin.max() > worst.get(wk, 0.0) and not bad.any():
-            worst[wk] = float(fin.max())
+        for bi, bl in enumerate(band_labels):
+            fin = np.where(judged & (band == bi) & ~bad, r0, 0.0)
+            wk = "%s|%s%s" % (f["name"], clause, ("|" + bl) if bl else "")
+            if fin.size and fin.max() > worst.get(wk, 0.0):
+                worst[wk] = float(fin.max())
         if sp.get("reduced"):
             rr_ = best[(":lazarus-time-units", clause)][0]
             rr_ = np.where(np.isfinite(rr_), rr_, 0.0)
@@ -584,12 +606,12 @@ def level(f, sp, cfg, pr, t, tier, res, tkey):
             iw = int(ii[np.argmax(r0[ii])])
             cl = clause
             if sp.get("reduced"):
-                rr = best[(":lazarus-time-units", clause)][0]
-                if (rr[ii] <= tol).all():
+                rr = best[(":lazarus-time-units", clause)][0][ii]
+                if np.isfinite(rr).any() and (rr[np.isfinite(rr)] <= tol[ii][np.isfinite(rr)]).all():
                     cl = clause + ":lazarus-time-units"     # fails in user time, passes with d/dt scaled: the recorded finding
             res["violations"].append({
                 "solver": f["name"], "cfg": cfg, "clause": cl, "where": {"t": t, "region": int(si)},
-                "value": float(min(r0[iw], 1e300)), "tol": tol,
+                "value": float(min(r0[iw], 1e300)), "tol": float(tol[iw]),
                 "detail": {"x": float(X[iw]), "n_bad_points": int(b_.sum()), "n_points": int(len(idx)),
                            "segment": [float(segs[si][0]), float(segs[si][1])],
                            "residual_min_over_bad_points": float(r0[ii].min())}})
@@ -603,7 +625,8 @@ def level(f, sp, cfg, pr, t, tier, res, tkey):
 
 
 def run_task(task):
-    f = hydro.by_name(task["family"]) if _have(task["family"]) else None
+    from xpmc import hydro_more  # noqa: F401  (registers the remaining families)
+    f = hydro.by_name(task["family"])
     sp = spec(task["family"])
     cfg = lattice.full_cfg(f["alphabet"], task["dev"])
     tier = task.get("tier", "quick")
@@ -615,12 +638,12 @@ def run_task(task):
     except Inadmissible:
         C["inadmissible_vectors"] = 1
         res["digest"] = dg.add("inadmissible").hex()
-        return _finish(res)
+        return res
     except Exception as ex:
         C["construct_exceptions"] = 1
         C["cexc:%s:%s" % (f["name"], type(ex).__name__)] = 1
         res["digest"] = dg.add("cexc", type(ex).__name__).hex()
-        return _finish(res)
+        return res
     pr = Probe(f, sp, cfg, s, dg)
     times = fam_times(f, sp, cfg, tier)
     if "ti" in task:
@@ -637,17 +660,7 @@ def run_task(task):
             dg.add("exc", ex.args[0])
     res["evals"] = pr.ncall
     res["digest"] = dg.hex()
-    return _finish(res)
-
-
-def _have(name):
-    from xpmc import hydro_more  # noqa: F401
-    return True
-
-
-def _finish(res):
-    # worst residuals / extents travel in counters-free side channels of the result (picked up by postprocess)
-    return res
+    return res          # "worst" and "extent" are side channels picked up by postprocess
 
 
 def postprocess(agg, tier):
@@ -661,6 +674,10 @@ def postprocess(agg, tier):
                 worst[k_] = v
         extent.extend(r.get("extent", []))
     out = {"worst_passing_residual_by_family_clause": {k_: worst[k_] for k_ in sorted(worst)}}
+    import os
+    if os.environ.get("XPMC_C01_FAMILIES"):      # development runs on a subset are never called exhaustive
+        out["capped"] = True
+        out["families_restricted_by_env"] = os.environ["XPMC_C01_FAMILIES"]
     if extent:
         vals = [e["linear_core_over_shock_radius"] for e in extent if e.get("linear_core_over_shock_radius")]
         if vals:
